@@ -647,7 +647,7 @@ pub fn c11_differential(stream: &[u8], limit: Option<usize>, sched: &mut dyn FnM
     if obs.want_render {
         render.push_str(&format!(
             "used connection: {:?}\n",
-            steps.iter().map(|s| format!("{}B->{}{}", s.got, match &s.res { RRes::Ok => "ok".to_string(), RRes::Parse(_, d) => format!("ERR {}", &d[..d.len().min(40)]), o => format!("{:?}", o) }, if s.reqs.is_empty() { String::new() } else { format!("+{}req", s.reqs.len()) })).collect::<Vec<_>>()
+            steps.iter().map(|s| format!("{}B->{}{}", s.got, match &s.res { RRes::Ok => "ok".to_string(), RRes::Parse(_, d) => format!("ERR {}", d.chars().take(40).collect::<String>()), o => format!("{:?}", o) }, if s.reqs.is_empty() { String::new() } else { format!("+{}req", s.reqs.len()) })).collect::<Vec<_>>()
         ));
     }
     let mut compared = 0;
